@@ -17,6 +17,15 @@ def step (_ : Unit) (ws : List String) : Unit × String :=
     match Hex.decode h with
     | some k => ((), toString (Slot.crc16 k).toNat)
     | none => ((), "bad-op")
+  | "!keys" :: init :: ks =>  -- oracle line: acceptance and slot from the specification only
+    match ks.mapM Hex.decode with
+    | some keys =>
+      let slots := keys.map Spec.Slot.slotSpec
+      if init == "noslot" then ((), "accept")
+      else match slots with
+        | [] => ((), "bad-op")
+        | s0 :: rest => if rest.all (· == s0) then ((), "accept " ++ toString s0) else ((), "panic")
+    | none => ((), "bad-op")
   | "keys" :: init :: ks =>
     let i := if init == "noslot" then Slot.noSlot else Slot.initSlot
     match ks.mapM Hex.decode with
